@@ -163,7 +163,7 @@ def run_modified(ctx):
         cls = rng.choice(["variational_gamma", "inside_outside", "maximization"])
         sm = rng.choice([None, True, False])
         kn, km = rng.choice(G.KINDS), rng.choice(G.KINDS)
-        ts = G.pooled_ts(rng, size=ctx.n(8, 30), multi=False, min_muts=2)
+        ts = G.maybe_permuted(rng, G.pooled_ts(rng, size=ctx.n(8, 30), multi=False, min_muts=2), 0.3)
         tables = ts.dump_tables()
         G.decorate(tables.nodes, kn, rng)
         G.decorate(tables.mutations, km, rng)
@@ -217,10 +217,22 @@ def run_date(ctx):
         method = rng.choice(["variational_gamma", "variational_gamma", "inside_outside", "maximization"])
         sm = rng.choice([None, True, False, None])
         kn, km = rng.choice(G.KINDS), rng.choice(G.KINDS)
-        ts = G.pooled_ts(rng, size=ctx.n(8, 30), multi=False, min_muts=2)
-        tables = ts.dump_tables()
-        G.decorate(tables.nodes, kn, rng)
-        G.decorate(tables.mutations, km, rng)
+        ts = G.maybe_permuted(rng, G.pooled_ts(rng, size=ctx.n(8, 30), multi=False, min_muts=2), 0.3)
+        if rng.random() < 0.25:
+            # date -> annotate -> re-date: the first dating installs tsdate's default schemas on
+            # schema-less tables, then every row gets further keys
+            try:
+                first = tsdate.date(ts, mutation_rate=0.5, max_iterations=1, rescaling_intervals=0)
+            except Exception:   # noqa: BLE001
+                continue
+            tables = first.dump_tables()
+            G.annotate_rows(tables.nodes, rng)
+            G.annotate_rows(tables.mutations, rng)
+            kn = km = "dated-then-annotated"
+        else:
+            tables = ts.dump_tables()
+            G.decorate(tables.nodes, kn, rng)
+            G.decorate(tables.mutations, km, rng)
         its = tables.tree_sequence()
         kw = dict(mutation_rate=rng.choice([0.05, 0.5]), method=method, set_metadata=sm, return_fit=True)
         if method == "variational_gamma":
